@@ -7,7 +7,7 @@ set -u
 HERE="$(cd "$(dirname "$0")/.." && pwd)"
 ID="$1"
 case "$ID" in
-  C06) TARGET=c06_parse;; C12) TARGET=c12_corrupt;; C13) TARGET=c13_total;;
+  C06) TARGET=c06_parse;; C12) TARGET=c12_corrupt;; C13) TARGET=c13_total;; C07) TARGET=c07_text;; C17) TARGET=c17_text;;
   *) echo "no fuzz target for $ID"; exit 0;;
 esac
 SECS="${VERIF_FUZZ_SECS:-300}"
@@ -50,12 +50,13 @@ if ! cargo +nightly fuzz build --fuzz-dir "$FUZZ_DIR" "$TARGET" >"$LOG" 2>&1; th
   note skipped 0 "cargo +nightly fuzz build failed"
   exit 0
 fi
+DICT="$HERE/fuzz/dict/mapping.dict"; case "$ID" in C07|C17) DICT="$HERE/fuzz/dict/trace.dict";; esac
 WORK="$(mktemp -d /tmp/pgv-fuzz-$ID-XXXXXX)"
 trap 'rm -rf "$WORK"' EXIT
 mkdir -p "$WORK/corpus" "$WORK/artifacts"
 "$HERE/harness/target/release/pgverif" gen-seeds "$ID" "$WORK/corpus" >/dev/null 2>&1
 BIN="$FUZZ_DIR/target/x86_64-unknown-linux-gnu/release/$TARGET"
-( cd "$WORK" && "$BIN" corpus -artifact_prefix="$WORK/artifacts/" -dict="$HERE/fuzz/dict/mapping.dict" -max_total_time="$SECS" -seed="$SEED" \
+( cd "$WORK" && "$BIN" corpus -artifact_prefix="$WORK/artifacts/" -dict="$DICT" -max_total_time="$SECS" -seed="$SEED" \
     -fork="$JOBS" -ignore_crashes=0 -max_len=1500 -len_control=0 -timeout=20 -rss_limit_mb=4096 -print_final_stats=1 ) >>"$LOG" 2>&1
 EXECS=$(grep -oE "#[0-9]+: cov" "$LOG" | tail -1 | tr -dc 0-9)
 [ -z "$EXECS" ] && EXECS=$(grep -oE "stat::number_of_executed_units: [0-9]+" "$LOG" | tail -1 | tr -dc 0-9)
@@ -80,6 +81,12 @@ OOM=$(ls "$WORK/artifacts"/oom-* "$WORK/artifacts"/timeout-* 2>/dev/null | head 
 if [ -n "$OOM" ]; then
   echo "fuzz stage: timeout/oom artifact (inconclusive, not a violation): $OOM"
   note skipped "$EXECS" "libFuzzer timeout/oom artifact (inconclusive)"
+  exit 0
+fi
+if [ "$EXECS" = "0" ]; then
+  # libFuzzer did not run at all (bad flag, dictionary error, start-up failure): that is not "no finding"
+  echo "fuzz stage skipped: libFuzzer executed nothing (see $LOG): $(tail -n 2 "$LOG" | tr '\n' ' ' | cut -c1-200)"
+  note skipped 0 "libFuzzer executed nothing: $(tail -n 1 "$LOG" | cut -c1-150 | tr -d '"')"
   exit 0
 fi
 echo "fuzz stage $ID: $EXECS executions in ${SECS}s x $JOBS jobs, no finding"
